@@ -13,10 +13,12 @@ Proof. exact prim_unpack_state_independent. Qed.
 Print Assumptions C10_prim.
 
 (* a tagged composite that was populated with both subfields and is then used to unpack only one of them shows
-   exactly that one (the F12 scenario) *)
+   exactly that one (the F12 scenario), and holds nothing of what it held before (F28: Unpack discards the
+   values of the subfields that were set) *)
 Example C10_ex_comp :
   let used := SComp [[x31]; [x32]] [([x31], SNumeric 7); ([x32], SBinary [xcd])] in
   let d := [x30; x36; x30; x31; x30; x32; x34; x32] in
-  fst (unpack_f c_ex used d) = SComp [[x31]] [([x31], SNumeric 42); ([x32], SBinary [xcd])] /\
+  fst (unpack_f c_ex used d) = SComp [[x31]] [([x31], SNumeric 42); ([x32], SBinary [])] /\
+  fst (unpack_f c_ex used d) = fst (unpack_f c_ex (fresh c_ex) d) /\
   pack_f c_ex (fst (unpack_f c_ex used d)) = pack_f c_ex (fst (unpack_f c_ex (fresh c_ex) d)).
-Proof. split; vm_compute; reflexivity. Qed.
+Proof. split; [|split]; vm_compute; reflexivity. Qed.
